@@ -108,20 +108,22 @@ type Outcome struct {
 	Detail      string // wait-for description for Deadlock/Hang
 	TraceHash   uint64
 	Leaked      int
+	LeakedAt    []string
 	Tasks       int
 	YieldsTaken [NClass]int64
 }
 
 type Sim struct {
-	cfg   Config
-	mu    sync.Mutex // guards task state against tasks leaving a runtime block
-	tasks []*Task
-	curp  atomic.Pointer[Task]
-	kick  chan struct{}
-	rng   uint64
-	step  int64
-	start time.Time
-	nexti int
+	atTeardown []func()
+	cfg        Config
+	mu         sync.Mutex // guards task state against tasks leaving a runtime block
+	tasks      []*Task
+	curp       atomic.Pointer[Task]
+	kick       chan struct{}
+	rng        uint64
+	step       int64
+	start      time.Time
+	nexti      int
 
 	dying     bool
 	stop      bool
@@ -682,9 +684,9 @@ func (s *Sim) runBubble(t *testing.T, main func(), finished chan any) {
 		s.started = true
 		GoNamed("main", main)
 		s.loop()
+		s.out.VirtualNs = s.vnow() // (teardown lets hours of virtual time pass to fire stray timers)
 		s.teardown()
 		s.out.Steps = s.step
-		s.out.VirtualNs = s.vnow()
 		s.out.TraceHash = s.hash
 		s.out.Tasks = s.nexti
 		runtime.SimSetRand(0)
@@ -869,6 +871,9 @@ func Describe() string {
 // are blocked in the runtime get virtual time to reach their next Reacquire.
 func (s *Sim) teardown() {
 	s.dying = true
+	for _, f := range s.atTeardown {
+		f()
+	}
 	for round := 0; round < 6; round++ {
 		for {
 			synctest.Wait()
@@ -915,9 +920,22 @@ func (s *Sim) teardown() {
 	for _, t := range s.tasks {
 		if t.state != stDone {
 			s.out.Leaked++
+			if len(s.out.LeakedAt) < 8 {
+				s.out.LeakedAt = append(s.out.LeakedAt, t.Name+" "+stateNames[t.state]+" "+t.site)
+			}
 		}
 	}
 	s.mu.Unlock()
+}
+
+// AtTeardown registers f to run (on the scheduler goroutine, without the
+// baton: it may only do non-blocking things such as closing a channel) when
+// the run ends, before the remaining tasks are ended. Simulated devices use it
+// to release tasks that wait on them.
+func AtTeardown(f func()) {
+	if S != nil {
+		S.atTeardown = append(S.atTeardown, f)
+	}
 }
 
 // InvariantError returns the error returned by OnStep, if any.
